@@ -1427,6 +1427,23 @@ fn c14(ctx: &BoardCtx, p: &Pos, fen: &str, b: &mut Bitboard) {
                 _ => {}
             }
         }
+        // the answer must not depend on what this thread was asked before: for a quarter of the
+        // moves a request that is REJECTED (a move that does not exist there) is made first on another
+        // board, which has like pieces able to reach many squares
+        if rm.to % 4 == 1 {
+            thread_local! {
+                static OTHER: std::cell::RefCell<Option<Bitboard>> = std::cell::RefCell::new(None);
+            }
+            OTHER.with(|o| {
+                let mut o = o.borrow_mut();
+                if o.is_none() {
+                    *o = Bitboard::from_fen_string("4k3/8/2n3n1/8/1N1QQ1N1/8/2R2R2/4K3 w - - 0 1").ok();
+                }
+                if let Some(ob) = o.as_mut() {
+                    let _ = ob.uci_to_pgn("a1a2");
+                }
+            });
+        }
         match b.uci_to_pgn(&u) {
             Ok(actual) => {
                 if actual != expected {
